@@ -25,3 +25,12 @@ func VerifNewConn(db *sql.DB, brk breaker.Breaker, opts ...SqlOption) SqlConn {
 	}
 	return conn
 }
+
+// VerifBreakerOf returns the breaker a connection built by the public constructors
+// (NewSqlConn, NewSqlConnFromDB) accounts its calls in (read-only; nil for other SqlConn types).
+func VerifBreakerOf(c SqlConn) breaker.Breaker {
+	if conn, ok := c.(*commonSqlConn); ok {
+		return conn.brk
+	}
+	return nil
+}
